@@ -23,6 +23,8 @@
 #include <signal.h>
 #include <sys/mman.h>
 #include <sys/stat.h>
+#include <sys/wait.h>
+#include <cstdarg>
 
 namespace vf {
 
@@ -409,6 +411,143 @@ template <class Case> void add_prop(const char *name, std::function<Case()> g, s
   props().push_back(p);
 }
 
+// ---------------------------------------------------------------- worker processes (one per PIXMAN_DISABLE value)
+// The implementation chain is chosen once, in the library's constructor, from the environment; the fast-path cache is
+// keyed without it.  Cross-implementation comparison therefore uses one child process per configuration, started with
+// the variable already set (DESIGN.md §0/§1.2).  Protocol: one serialised case per line in, one result line out.
+struct Worker {
+  std::string cfg;
+  pid_t pid = -1;
+  FILE *to = nullptr, *from = nullptr;
+};
+struct WorkerSet {
+  std::string prop;
+  std::vector<Worker> ws;
+  void spawn(Worker &w) {
+    int in[2], out[2];
+    if (pipe(in) || pipe(out)) return;
+    pid_t p = fork();
+    if (p == 0) {
+      dup2(in[0], 0);
+      dup2(out[1], 1);
+      close(in[0]);
+      close(in[1]);
+      close(out[0]);
+      close(out[1]);
+      if (!getenv("VF_WORKER_STDERR")) {
+        int dn = open("/dev/null", O_WRONLY);
+        if (dn >= 0) dup2(dn, 2);
+      }
+      setenv("PIXMAN_DISABLE", w.cfg.c_str(), 1);
+      unsetenv("RC_PARAMS");
+      execl("/proc/self/exe", "worker", "--worker", prop.c_str(), (char *)nullptr);
+      _exit(127);
+    }
+    close(in[0]);
+    close(out[1]);
+    w.pid = p;
+    w.to = fdopen(in[1], "w");
+    w.from = fdopen(out[0], "r");
+  }
+  void start(const std::string &prop_, const std::vector<std::string> &cfgs) {
+    prop = prop_;
+    signal(SIGPIPE, SIG_IGN);
+    for (auto &c : cfgs) {
+      Worker w;
+      w.cfg = c;
+      spawn(w);
+      ws.push_back(w);
+    }
+  }
+  // send the case to every worker, collect one line each ("" = worker died)
+  std::vector<std::string> run(const std::string &line) {
+    std::vector<std::string> res;
+    for (auto &w : ws) {
+      if (!w.to) spawn(w);
+      fputs(line.c_str(), w.to);
+      fputc('\n', w.to);
+      fflush(w.to);
+    }
+    for (auto &w : ws) {
+      char *buf = nullptr;
+      size_t cap = 0;
+      ssize_t n;
+      while ((n = getline(&buf, &cap, w.from)) > 0 && strncmp(buf, "R:", 2) != 0) {
+      }
+      if (n <= 0) {
+        res.push_back("");
+        fclose(w.to);
+        fclose(w.from);
+        int st;
+        waitpid(w.pid, &st, 0);
+        w.to = w.from = nullptr;
+      } else {
+        std::string r(buf + 2, (size_t)n - 2);
+        while (!r.empty() && (r.back() == '\n' || r.back() == '\r')) r.pop_back();
+        res.push_back(r);
+      }
+      free(buf);
+    }
+    return res;
+  }
+  void stop() {
+    for (auto &w : ws)
+      if (w.to) {
+        fclose(w.to);
+        fclose(w.from);
+        int st;
+        waitpid(w.pid, &st, 0);
+      }
+    ws.clear();
+  }
+};
+inline std::vector<std::string> worker_configs() {
+  // VF_CHAINS="a;b;c" overrides; default: the 8 configurations of the quick tier
+  std::vector<std::string> v;
+  const char *e = getenv("VF_CHAINS");
+  std::string s = e ? e : ";ssse3;ssse3 sse2;ssse3 sse2 mmx;fast mmx sse2 ssse3;fast;wholeops;wholeops fast mmx sse2 ssse3";
+  std::stringstream ss(s);
+  std::string t;
+  while (std::getline(ss, t, ';')) v.push_back(t);
+  if (!s.empty() && s.back() == ';') v.push_back("");
+  return v;
+}
+
+// worker-side table: prop name -> function(case text) -> result line
+inline std::map<std::string, std::function<std::string(const std::string &)>> &worker_fns() {
+  static auto *m = new std::map<std::string, std::function<std::string(const std::string &)>>();
+  return *m;
+}
+// A differential property: `render` runs in every worker, `judge` sees all result lines
+template <class Case>
+void add_worker_prop(const char *name, std::function<Case()> g, std::function<std::string(const Case &)> render,
+                     std::function<Verdict(const Case &, const std::vector<std::string> &, const std::vector<std::string> &)> judge) {
+  std::string nm = name;
+  worker_fns()[nm] = [render](const std::string &text) {
+    Case c;
+    if (!parse(text, c)) return std::string("PARSE-ERROR");
+    return render(c);
+  };
+  static std::map<std::string, WorkerSet *> sets;
+  add_prop<Case>(name, g, [nm, judge](const Case &c) {
+    WorkerSet *&ws = sets[nm];
+    if (!ws) {
+      ws = new WorkerSet();
+      ws->start(nm, worker_configs());
+    }
+    std::vector<std::string> cfgs;
+    for (auto &w : ws->ws) cfgs.push_back(w.cfg);
+    std::vector<std::string> res = ws->run(ser(c));
+    Verdict v;
+    for (size_t i = 0; i < res.size(); i++)
+      if (res[i].empty()) {
+        v.fail("worker with PIXMAN_DISABLE=\"" + cfgs[i] + "\" died on this case");
+        return v;
+      }
+    return judge(c, res, cfgs);
+  });
+}
+
 inline int main_(int argc, char **argv) {
   Ctx &c = ctx();
   for (int i = 1; i < argc; i++) {
@@ -427,6 +566,22 @@ inline int main_(int argc, char **argv) {
       std::string t;
       while (std::getline(ss, t, ','))
         if (!t.empty()) c.known.insert(t);
+    } else if (a == "--worker") {
+      std::string nm = nx();
+      auto it = worker_fns().find(nm);
+      if (it == worker_fns().end()) return 3;
+      char *buf = nullptr;
+      size_t cap = 0;
+      ssize_t n;
+      while ((n = getline(&buf, &cap, stdin)) > 0) {
+        std::string line(buf, (size_t)n);
+        std::string r = it->second(line);
+        fputs("R:", stdout);  // marker: the library itself prints to stdout ("pixman: Disabled ... implementation")
+        fputs(r.c_str(), stdout);
+        fputc('\n', stdout);
+        fflush(stdout);
+      }
+      return 0;
     } else if (a == "--list") {
       for (auto *p : props()) printf("%s\n", p->name.c_str());
       return 0;
